@@ -426,4 +426,30 @@ SolverHistoryContract(e) ==
         ELSE Verdict(Fl("assertions_are_live_assertions", bad = {}), <<>>,
                      IF bad # {} THEN CHOOSE i \in bad : \A k \in bad : i <= k ELSE -1)
 
+\* ------------------------------------------------------------------ C04
+FM == INSTANCE FMCalls
+
+(* one environment: calls[i] = index of the i-th constructor call, obs[i] = [term, same] where
+   same[j] = 1 iff result i is the same object as result j (j < i) *)
+FMHistoryContract(e) ==
+    LET n == Len(e.calls)
+        badread == {i \in 1..n : e.obs[i].term # FM!Den(e.calls[i])}
+        badid == {p \in (1..n) \X (1..n) : p[2] < p[1] /\
+                     ((e.obs[p[1]].same[p[2]] = 1) # (FM!Den(e.calls[p[1]]) = FM!Den(e.calls[p[2]])))}
+        split == {p \in badid : FM!Den(e.calls[p[1]]) = FM!Den(e.calls[p[2]])}
+    IN  Verdict(Fl("accessors_read_back_what_was_built", badread = {}) \o
+                Fl("same_structure_same_object", split = {}) \o
+                Fl("different_structure_different_object", badid \ split = {}), <<>>,
+                IF badread # {} THEN CHOOSE i \in badread : TRUE ELSE -1)
+
+(* cross-environment copy: src / copy exported structures, shared = number of FNode objects of the
+   copy that are also reachable from the source, in_target = copy belongs to the target manager *)
+NormalizeContract(e) ==
+    IF e.res # "ok" THEN Verdict(<<"raises">>, <<>>, -1)
+    ELSE Verdict(Fl("structurally_identical_copy", e.copy = e.src) \o
+                 Fl("copy_well_typed", TypeOf(e.copy) # Ill) \o
+                 Fl("reported_type_out", e.rty = TypeOf(e.copy)) \o
+                 Fl("no_shared_formula_objects", e.shared = 0) \o
+                 Fl("copy_belongs_to_target_environment", e.in_target), <<>>, -1)
+
 =============================================================================
